@@ -73,3 +73,58 @@ Theorem dtls13_labels_nodup :
 Proof.
   repeat (constructor; [cbn; intuition discriminate|]). constructor.
 Qed.
+
+(* ---------------- key-update chain: application_traffic_secret_n ---------------- *)
+
+(* the chain law, for every n: secret (n+1) = HKDF-Expand-Label(secret n, "traffic upd", "", Hash.length) *)
+Theorem traffic_update_chain H secret0 n :
+  traffic_secret_n H secret0 (S n) =
+  hkdf_expand_label H (traffic_secret_n H secret0 n) lbl_traffic_upd [] (h_len H).
+Proof. reflexivity. Qed.
+
+(* an implementation that keeps only the current secret and steps it once per key update holds
+   secret n after n updates, whatever n *)
+Theorem traffic_secret_n_iter H secret0 n :
+  Nat.iter n (key_update_step H) secret0 = traffic_secret_n H secret0 n.
+Proof.
+  induction n as [|n IH]; [reflexivity|].
+  cbn [Nat.iter nat_rect traffic_secret_n]. unfold Nat.iter in IH. rewrite IH. reflexivity.
+Qed.
+
+(* continuing from generation n for m more updates is generation n+m: the chain only ever needs the
+   current secret, and it needs exactly that one (not an earlier one) *)
+Theorem traffic_secret_n_add H secret0 n m :
+  traffic_secret_n H (traffic_secret_n H secret0 n) m = traffic_secret_n H secret0 (n + m).
+Proof.
+  induction m as [|m IH]; [now rewrite Nat.add_0_r|].
+  rewrite Nat.add_succ_r. cbn [traffic_secret_n]. now rewrite IH.
+Qed.
+
+Theorem traffic_secret_n_length H secret0 n : hash_wf H ->
+  length (traffic_secret_n H secret0 (S n)) = h_len H.
+Proof. intro Hwf. cbn [traffic_secret_n]. unfold next_traffic_secret. now apply hkdf_expand_label_length. Qed.
+
+(* the record-protection keys of generation n are derived from secret n (and from nothing else) *)
+Theorem generation_keys_from_secret H secret0 n kl :
+  generation_keys H secret0 n kl =
+  [traffic_secret_n H secret0 n;
+   hkdf_expand_label H (traffic_secret_n H secret0 n) lbl_key [] kl;
+   hkdf_expand_label H (traffic_secret_n H secret0 n) lbl_iv [] 12;
+   hkdf_expand_label H (traffic_secret_n H secret0 n) lbl_sn [] kl].
+Proof. reflexivity. Qed.
+
+(* generation n+1 is keyed exactly like generation 0 of a connection whose secret 0 is the
+   once-updated secret n: key/iv/sn of every generation go through "traffic upd" first *)
+Theorem generation_keys_step H secret0 n kl :
+  generation_keys H secret0 (S n) kl =
+  generation_keys H (next_traffic_secret H (traffic_secret_n H secret0 n)) 0 kl.
+Proof. reflexivity. Qed.
+
+Theorem generation_keys_lengths H secret0 n kl : hash_wf H ->
+  map (@length N) (generation_keys H secret0 (S n) kl) = [h_len H; kl; 12%nat; kl].
+Proof.
+  intro Hwf. unfold generation_keys. cbn [map].
+  rewrite traffic_secret_n_length by exact Hwf.
+  unfold traffic_key, traffic_iv, traffic_sn_key.
+  now rewrite !hkdf_expand_label_length by exact Hwf.
+Qed.
